@@ -5,6 +5,7 @@ import (
 	"fmt"
 	sharedConfig "lunar/shared-model/config"
 	"lunar/toolkit-core/urltree"
+	"strings"
 
 	"github.com/rs/zerolog/log"
 )
@@ -21,29 +22,24 @@ func BuildEndpointPolicyTree(
 	endpoints []sharedConfig.EndpointConfig,
 ) (*EndpointPolicyTree, error) {
 	endpointPolicyTree := newEndpointPolicyTree()
+	policiesByPattern := map[string]*map[urltree.Method]EndpointPolicy{}
 	for _, endpoint := range endpoints {
 		err := checkForDuplicates(endpointPolicyTree, endpoint)
 		if err != nil {
 			return nil, err
 		}
-		var endpointPolicy *map[urltree.Method]EndpointPolicy
-		existingEndpointPolicy := endpointPolicyTree.Lookup(endpoint.URL)
-		if existingEndpointPolicy.Value != nil {
-			existingPolicy := *existingEndpointPolicy.Value
-			existingPolicy[urltree.Method(endpoint.Method)] = EndpointPolicy{
-				URL:       endpoint.URL,
-				Remedies:  endpoint.Remedies,
-				Diagnosis: endpoint.Diagnosis,
-			}
-			endpointPolicy = &existingPolicy
-		} else {
-			endpointPolicy = &map[urltree.Method]EndpointPolicy{
-				urltree.Method(endpoint.Method): {
-					URL:       endpoint.URL,
-					Remedies:  endpoint.Remedies,
-					Diagnosis: endpoint.Diagnosis,
-				},
-			}
+		// one method->policy map per declared URL pattern; never the map of whichever
+		// other pattern happens to match this pattern when it is looked up as a URL
+		patternKey := strings.Trim(endpoint.URL, "./")
+		endpointPolicy, declared := policiesByPattern[patternKey]
+		if !declared {
+			endpointPolicy = &map[urltree.Method]EndpointPolicy{}
+			policiesByPattern[patternKey] = endpointPolicy
+		}
+		(*endpointPolicy)[urltree.Method(endpoint.Method)] = EndpointPolicy{
+			URL:       endpoint.URL,
+			Remedies:  endpoint.Remedies,
+			Diagnosis: endpoint.Diagnosis,
 		}
 		err = endpointPolicyTree.InsertDeclaredURL(endpoint.URL, endpointPolicy)
 		if err != nil {
